@@ -4,7 +4,6 @@ import FitModel.Generated.XlsxTypes
 import FitModel.Generated.ProfileTables
 import FitModel.Generated.ProfileTypes
 import FitModel.Generated.ProfileStrs
-import FitModel.Generated.GenDigest
 import FitModel.Generated.Untyped
 import FitModel.Typed
 import FitModel.Generated.Mesgdef
